@@ -35,10 +35,12 @@ def draw_config(rng: random.Random, prop: str) -> dict:
                                       'per_traj'])
     cfg['unset_p'] = rng.choice([0.0, 0.3, 1.0])
     cfg['new_species_p'] = rng.choice([0.0, 0.0, 0.15]) if prop in ('C03', 'C10') else 0.0
+    cfg['file_species_p'] = rng.choice([0.0, 0.5]) if prop in ('C09', 'C03') else 0.0
     w = {
         'create': 2, 'add': 10, 'get': 8, 'iter': 1.5, 'len': 1, 'lookup': 2, 'sync': 1.5,
         'close': 2, 'open_r': 2, 'open_a': 2, 'fsck': 0.5, 'add_invalid': 0, 'merge': 0,
         'open_merged': 0, 'create_assoc': 0, 'save': 1, 'get_oob': 1.5, 'append_merged': 0,
+        'iter_live': 1.0,
         'merge_refused': 0, 'merge_faulted': 0,
     }
     if prop == 'C03':
@@ -56,8 +58,8 @@ def draw_config(rng: random.Random, prop: str) -> dict:
         w.update(lookup=8, add_invalid=1, merge=1.5, open_merged=3, open_a=3)
         cfg['max_files'] = rng.randint(1, 4)
     elif prop == 'C09':
-        cfg['fs_pool'] = rng.choice([[], ['vx_t'], ['vx_s'], ['vx_wide'], ['vx_p', 'vx_m']])
-        cfg['species_mode'] = rng.choice(['first_k', 'all'])
+        cfg['fs_pool'] = rng.choice([[], ['vx_t'], ['vx_s'], ['vx_wide'], ['vx_p', 'vx_m'], ['vx_sm', 'vx_s']])
+        cfg['species_mode'] = rng.choice(['first_k', 'all', 'gaps', 'single'])
         cfg['max_files'] = rng.randint(2, 6)
         cfg['max_rows'] = rng.randint(1, 5)
         cfg['layout'] = rng.choices(['single', 'assoc'], [0.6, 0.4])[0]
@@ -132,7 +134,7 @@ class Gen:
                     break
                 yield {'op': 'add', 'sess': op['sess'],
                        'traj': self.traj_spec(gid, first_of_file=len(self.sim._rows(sess)) == 0,
-                                              fs=list(sess.visible_fs))}
+                                              fs=list(sess.visible_fs), file=sess.file)}
             yield {'op': 'close', 'sess': op['sess']}
             names.append(op['file'])
         extra = None
@@ -288,7 +290,7 @@ class Gen:
         used.append(v)
         return v
 
-    def traj_spec(self, gid, first_of_file: bool, n=None, fs=None, ident=None):
+    def traj_spec(self, gid, first_of_file: bool, n=None, fs=None, ident=None, file=None):
         rng = self.rng
         g = self.groups[gid]
         fs = list(g['fs']) if fs is None else fs
@@ -307,6 +309,10 @@ class Gen:
         sf = G.species_fields(fs)
         if sf:
             uni = g['species']
+            if file is not None and file.species:
+                uni = list(file.species)          # the file's species dimension is fixed
+            elif first_of_file and rng.random() < self.cfg.get('file_species_p', 0.0):
+                uni = self._species_universe()    # parts of one group with differing species
             mode = self.cfg['species_mode']
             sp = {}
             for f in sf:
@@ -350,7 +356,8 @@ class Gen:
             if w['add_invalid']:
                 cands.append(('add_invalid', w['add_invalid']))
         if open_sessions:
-            cands += [('get', w['get']), ('iter', w['iter']), ('len', w['len']),
+            cands += [('iter_live', w.get('iter_live', 0)),
+                      ('get', w['get']), ('iter', w['iter']), ('len', w['len']),
                       ('lookup', w['lookup']), ('close', w['close']), ('get_oob', w['get_oob'])]
             if any(s.kind in ('create', 'append') for s in open_sessions):
                 cands.append(('sync', w['sync']))
@@ -410,7 +417,7 @@ class Gen:
             return None
         gid = self._gid_of(sess)
         fs = sess.visible_fs if sess.kind != 'mem' else self.groups[gid]['fs']
-        spec = self.traj_spec(gid, first_of_file=len(rows) == 0, fs=list(fs))
+        spec = self.traj_spec(gid, first_of_file=len(rows) == 0, fs=list(fs), file=sess.file)
         if sess.kind == 'mem':
             if self.cfg['regime'] != 'pressure':
                 spec['n'] = rng.choice([spec['n'], rng.randint(1500, 4000)])
@@ -450,6 +457,18 @@ class Gen:
     def g_iter(self):
         sess = self.rng.choice(list(self.sim.sessions.values()))
         return {'op': 'iter', 'sess': sess.sid}
+
+    def g_iter_live(self):
+        rng = self.rng
+        sim = self.sim
+        live = [k for k, st in sim.iters.items() if not st['done'] and st['sess'].sid in sim.sessions]
+        if live and rng.random() < 0.75:
+            return {'op': 'iter_next', 'it': rng.choice(live), 'n': rng.choice([1, 1, 2, 5])}
+        if len(live) >= 2:
+            return None
+        sess = rng.choice(list(sim.sessions.values()))
+        self.nit = getattr(self, 'nit', 0) + 1
+        return {'op': 'iter_open', 'sess': sess.sid, 'it': f'i{self.nit}'}
 
     def g_len(self):
         sess = self.rng.choice(list(self.sim.sessions.values()))
